@@ -89,7 +89,7 @@ def _worker(arg: tuple) -> dict:
 
 def _where(exc: BaseException) -> str:
     tb = traceback.extract_tb(exc.__traceback__)
-    frames = [f for f in tb if '/repo/' in f.filename or '/checks/' in f.filename]
+    frames = [f for f in tb if '/pymap/' in f.filename or '/checks/' in f.filename]
     if frames:
         f = frames[-1]
         return '%s:%d %s' % (f.filename, f.lineno, f.name)
@@ -190,7 +190,7 @@ def replay_batch(check_id: str, items: list[dict]) -> list[dict]:
     nchunks = max(1, min(NPROC, len(items) // 8 or 1))
     chunks = [items[i::nchunks] for i in range(nchunks)]
     env = dict(os.environ)
-    env['PYTHONPATH'] = '/repo:' + VERIF
+    env['PYTHONPATH'] = (os.environ.get('VERIF_REPO') or '/repo') + ':' + VERIF
     env['PYTHONDONTWRITEBYTECODE'] = '1'
     procs = []
     files = []
